@@ -126,6 +126,7 @@ func scopesValid(thorough bool) []Scope {
 	scs = append(scs,
 		Scope{Name: "R-half-2:NetherlandsRDNewQuad-z14", GS: realGS("NetherlandsRDNewQuad", 14, 2, 155000, 463000), Spec: lat.Spec{Points: lat.Window(2, 2, 2), MaxK: k(3, 5), Valid: true}, IDSets: [][]int{{14}}, Cfgs: keepCfgs},
 		Scope{Name: "R-half-2:WebMercatorQuad-z17", GS: realGS("WebMercatorQuad", 17, 2, 550000.1, 6800000.2), Spec: lat.Spec{Points: lat.Window(2, 2, 2), MaxK: k(3, 5), Valid: true}, IDSets: [][]int{{17}}, Cfgs: keepCfgs},
+		Scope{Name: "R-half-2:NetherlandsRDNewQuad-z16", GS: realGS("NetherlandsRDNewQuad", 16, 2, 250000.5, 600000.5), Spec: lat.Spec{Points: lat.Window(2, 2, 2), MaxK: k(3, 5), Valid: true}, IDSets: [][]int{{16}}, Cfgs: keepCfgs},
 		Scope{Name: "R-holes-2:WebMercatorQuad-z17", GS: realGS("WebMercatorQuad", 17, 2, 550000.1, 6800000.2), Spec: lat.Spec{Points: lat.Window(2, 2, 2), MaxK: 4, Valid: true, MaxHoles: 1, HoleMaxK: 3}, IDSets: [][]int{{17}}, Cfgs: keepCfgs},
 		Scope{Name: "R-multi:NetherlandsRDNewQuad-z12-14", GS: realGS("NetherlandsRDNewQuad", 14, 2, 20000.3, 380000.7), Spec: lat.Spec{Points: scale(lat.Window(2, 2, 2), 4), MaxK: k(3, 4), Valid: true}, IDSets: [][]int{{12, 13, 14}, {14}, {12, 14}}, Cfgs: keepCfgs},
 	)
